@@ -327,6 +327,22 @@ def run(ctx):
             case, o = (cindex if name == 'c11_c' else vindex)[lo + j]
             ctx.report({'clause': 'correspondence', 'part': name}, {'case': case, 'observed': o},
                        'the model (C11/Exc.v) and beartype disagree on ' + ('callable_cached' if name == 'c11_c' else 'is_hint / die_unless_hint'))
+    # hints that reach themselves through forward references (directly, mutually, below containers), resolved while decorating
+    # or at the first call, through every entry point: only beartype's own exceptions may come out
+    try:
+        rrows = run_impl('c11_recursive.py', {}, timeout=600)
+    except Exception as e:  # noqa
+        rrows = [{'hint': 'crash', 'use': 'probe', 'outcome': 'LEAK:' + str(e)[-300:]}]
+    ctx.evaluations += len(rrows)
+    ctx.extra['recursive_forward_reference_rows'] = len(rrows)
+    for r in rrows:
+        if r['outcome'].startswith('LEAK'):
+            if ctx.report({'clause': 'foreign_exception', 'stream': 'recursive_forward_reference', 'use': r['use'],
+                           'class': r['outcome'].split(':', 1)[1]}, r,
+                          'a self-referential forward-reference hint let an exception that is not beartype\'s own escape') == 'violation':
+                failures += 1
+                if failures > 12:
+                    break
     if proof_err is not None and not failures:
         ctx.broken(f'{PROP} ({proof_err.what})', proof_err.log)
 
@@ -335,5 +351,12 @@ def replay(ctx, path):
     with open(path) as f:
         body = json.load(f)
     case = body['record'].get('case')
+    if body['record'].get('use') and body['record'].get('outcome') and 'hint' in body['record']:
+        for r in run_impl('c11_recursive.py', {}, timeout=600):
+            if r['hint'] == body['record']['hint'] and r['use'] == body['record']['use']:
+                print(json.dumps(r))
+                if r['outcome'].startswith('LEAK'):
+                    ctx.report(body.get('shape') or {'clause': 'foreign_exception'}, r, 'the exception still escapes')
+        return
     if case:
         print(json.dumps(run_impl('c11_impl.py', {'cases': [case]})[0])[:4000])
